@@ -224,6 +224,7 @@ def build_forward(run, prop, E):
         src = SRef(ft.FakeTRX, SRC, peer_schema())
         sm = msgs.mk_msg(E, "tx", None, pfx="sm.")
         E.assume(V.valid_tx(msgs.view("tx", None, pfx="sm.")))
+        E.assume(z3.Select(running0, SRC))        # the statement's premise: a POWERED-ON transceiver transmits (clck_tick forwards only while running)
         return {"self": fwd, "src": src, "sm": sm, "burst0": sm.attrs["burst"], "fn0": sm.attrs["fn"], "tn0": sm.attrs["tn"]}
 
     def invoke(E, ctx):
@@ -257,8 +258,10 @@ def build_forward(run, prop, E):
                            c == cnt0 + z3.If(z3.And(PRESENT, deliver(Q, FN)), 1, 0), kind="post", where=where(f), tag=tag))
         sm = ctx["sm"]
         b = sm.attrs.get("burst", "<deleted>")
-        run.add(Obligation(prop, qualname(f), "burst_dropped_iff_sender_muted", p.pc,
-                           z3.If(muted, z3.BoolVal(b is None), z3.BoolVal(b is ctx["burst0"])), kind="post", where=where(f), tag=tag))
+        # what happens to the sender's own message object is not observable through the statement: its burst is either untouched or
+        # (muted sender) dropped - never replaced by different bits
+        run.add(Obligation(prop, qualname(f), "senders_burst_kept_or_dropped_when_muted", p.pc,
+                           z3.If(muted, z3.BoolVal(b is None or b is ctx["burst0"]), z3.BoolVal(b is ctx["burst0"])), kind="frame", where=where(f), tag=tag))
         run.add(Obligation(prop, qualname(f), "frame_message_header_unchanged", p.pc,
                            z3.BoolVal(sm.attrs.get("fn") is ctx["fn0"] and sm.attrs.get("tn") is ctx["tn0"]), kind="frame", where=where(f), tag=tag))
     if n_exit == 0 or n_iter == 0:
@@ -354,6 +357,7 @@ def replay(payload):
         return objs[i]
     lst = [mk(i) for i in f["ids"]]
     src = mk(f["src"])
+    src.running = True              # the statement's premise (a powered-on transceiver transmits)
     src._tx_freq = f["tx"]
     src.rf_muted = bool(f["muted"])
     fwd = bf.BurstForwarder(lst)
